@@ -48,7 +48,7 @@ ASSUMPTIONS = [
     "pandas.read_csv's default float parser is not correctly rounded (1 ulp)",
 ]
 MIN_NONTRIVIAL = {"quick": 30, "thorough": 600}
-REQUIRED_COUNTERS = {"step.write": 100, "step.move": 40, "step.delete": 30, "step.copy": 10,
+REQUIRED_COUNTERS = {"step.parallel_convert": 8, "step.write": 100, "step.move": 40, "step.delete": 30, "step.copy": 10,
                      "step.convert": 10, "readback.files": 500, "format.netcdf": 4, "format.csv": 4}  # 2 shards x 3 cases each in quick
 SHARD_TIMEOUT = {"quick": 900, "thorough": 7200}
 
@@ -81,11 +81,23 @@ def pkl_read(file_info, tag=None):
     return data
 
 
+WRITE_DELAY = {"s": 0.0}
+
+
 def pkl_write(data, file_info, stamp=None):
     if stamp is not None:
         data = dict(data, write_stamp=stamp)
     with open(file_info.path, "wb") as fh:
+        if WRITE_DELAY["s"]:
+            # a slow writer (legitimate suspension point inside the user handler): widens the window
+            # in which the parallel workers of move()/map() are inside their compress blocks together
+            import time
+            fh.write(b"")
+            time.sleep(WRITE_DELAY["s"])
         pickle.dump(data, fh)
+        if WRITE_DELAY["s"]:
+            fh.flush()
+            time.sleep(WRITE_DELAY["s"])
 
 
 def post_reader(file_info, data):
@@ -386,6 +398,59 @@ class History:
             self.flags.add("partial")
         return self.verify("move" if not copy else "copy", allowed, tr)
 
+    def step_parallel_convert(self):
+        """Files with identical names in different directories (same time of day on several days),
+        converted to a compressed target by parallel workers with a slow writer."""
+        rng = self.rng
+        name = "par%d" % len(self.filesets)
+        suffix = rng.choice(["", ".gz"])
+        fs = self.add_fileset(name, "smd", suffix, worker_type="thread", max_threads=4,
+                              temp_dir=self.root + "/tmp-compress")
+        sat = rng.choice(SATS)
+        sec = rng.randrange(0, 80000)
+        for k in range(rng.choice([4, 6])):
+            t0 = dt.datetime(2017, 5, 1 + k) + D(seconds=sec)
+            t1 = t0 + D(seconds=600)
+            content = {"id": self.next_id, "payload": "p" * 2000}
+            self.next_id += 1
+            path = self.name_for(name, t0, t1, sat)
+            fs[t0:t1, {"sat": sat}] = content
+            self.model[path] = dict(content)
+            self.meta[path] = (name, t0, t1, sat)
+        if not self.verify("write (parallel set)"):
+            return False
+        tname = "t%d" % len(self.filesets)
+        suffix2 = rng.choice([".gz", ".zip", ".xz", ".bz2"])
+        self.steps.append(["parallel-convert", name, tname, suffix2])
+        self.rec.ev()
+        self.rec.count("step.parallel_convert")
+        self.filesets[tname] = (None, "smd", suffix2)
+        new_model, new_meta = dict(self.model), dict(self.meta)
+        for p in self.files_of(name):
+            _, t0, t1, s_ = self.meta[p]
+            q = self.name_for(tname, t0, t1, s_)
+            new_model[q] = dict(self.model[p])
+            new_meta[q] = (tname, t0, t1, s_)
+            del new_model[p]
+            del new_meta[p]
+        WRITE_DELAY["s"] = 0.004
+        try:
+            with warnings.catch_warnings():
+                warnings.simplefilter("ignore")
+                res = fs.move(self.root + "/" + tname + "/" + TEMPLATES["smd"] + suffix2, convert=True)
+        except Exception as exc:
+            self.rec.violation("operation-exception", self.case(),
+                               {"op": "parallel convert", "exception": repr(exc),
+                                "trace": traceback.format_exc()[-1200:]})
+            return False
+        finally:
+            WRITE_DELAY["s"] = 0.0
+        self.model, self.meta = new_model, new_meta
+        res.worker_type = "thread"
+        self.filesets[tname] = (res, "smd", suffix2)
+        self.flags.add("template-change")
+        return self.verify("parallel convert")
+
     def step_delete(self):
         rng = self.rng
         src = rng.choice(sorted(self.filesets))
@@ -477,6 +542,9 @@ def run_history(rec, seed, hrng):
         nsteps = hrng.choice([5, 10, 20, 40])
         for _ in range(hrng.choice([3, 6, 12])):
             if not h.step_write():
+                return
+        if hrng.random() < 0.35:
+            if not h.step_parallel_convert():
                 return
         for _ in range(nsteps):
             r = hrng.random()
